@@ -37,7 +37,7 @@ RULE = ('exhaustive: every allowed (parent kind, position class, child kind) tri
         'non-trivial = the tree contains a triple at which the grammar requires parentheses, or an f-string with spec/brace/conversion; distinct = distinct canonical trees')
 
 HEADER = ('From Coq Require Import ZArith List Bool Arith.\nImport ListNotations.\n'
-          'Require Import PonyV.Model.C04Expr PonyV.Model.C04Parse PonyV.Model.C04FStr PonyV.Model.C04Ext PonyV.Gen.Priority.\n'
+          'Require Import PonyV.Model.C04Expr PonyV.Model.C04Parse PonyV.Model.C04FStr PonyV.Model.C04Ext PonyV.Model.C04Eval PonyV.Gen.Priority.\n'
           'Open Scope Z_scope.\n'
           'Definition bools_eqb := list_eqb Bool.eqb.\nDefinition nats_eqb := list_eqb Nat.eqb.\n'
           'Definition fpart_eqb (a b : fpart) : bool := match a, b with FLit x, FLit y => str_eqb x y '
@@ -462,7 +462,8 @@ def correspondence(ctx):
             try:
                 srcs, _g = X.real_extractor_srcs(t)
             except SyntaxError as e:
-                if not re.search(r'<pony (\*|[^>]*:)', str(e)): raise
+                chk = X.marking_check(t)
+                if not (chk and chk['kind'] in ('external-is-not-an-expression', 'external-mentions-query-variable')): raise
                 srcs = None          # a starred item / slice left in the set (known finding): its text does not compile; the set itself is still compared
                 dist['marking_starred_external'] = dist.get('marking_starred_external', 0) + 1
         except Exception as e:
@@ -483,6 +484,21 @@ def correspondence(ctx):
         else:
             exprs.append('ecase %s %s %s [%s] [%s]' % (fc, cctx, G.coq_expr(t), ';'.join(X.coq_path(p) for p in sorted(paths)), ';'.join(G.cstr(x) for x in sorted(srcs))))
         meta.append(('marking', t, {'paths': sorted(paths), 'srcs': None if srcs is None else sorted(srcs)}))
+    # the evaluation semantics Model/C04Eval.v (reference, hand-written) vs CPython on typed trees of its fragment
+    fg = G.FragGen(ctx.rng)
+    cenv = G.coq_env(G.FragGen.SCOPE)
+    dist.update({'eval_semantics_cases': 0, 'eval_semantics_python_raises': 0})
+    for _ in range(ctx.scale(250, 2500)):
+        t = fg.gen(ctx.rng.choice(['int', 'int', 'str', 'tup']), ctx.rng.choice([1, 2, 3, 4]))
+        try:
+            v = eval(compile(G.fresh_ast(t), '<frag>', 'eval'), {'__builtins__': {}}, dict(G.FragGen.SCOPE))
+            exp = '(Some %s)' % G.coq_pyv(v)
+        except (TypeError, IndexError):
+            exp = 'None'; dist['eval_semantics_python_raises'] += 1
+        except G.Unmodelled:
+            continue
+        exprs.append('bit (opt_eqb pyv_eqb (ceval %s %s) %s) 1' % (cenv, G.coq_expr(t), exp)); meta.append(('eval-semantics', t, exp))
+        dist['eval_semantics_cases'] += 1; ncases += 1
     for i, code in run_codes(ctx, exprs)[:20]:
         kind, inp, impl = meta[i]
         why = '; '.join(w for c, w in CODES.items() if code & c) if kind == 'tree' else 'code %d' % code
@@ -696,7 +712,7 @@ def marking_failure(t):
     if res['kind'] == 'external-mentions-query-variable':
         key = 'list-or-starred-item-marked-external' if X.has_dishonest_display(t) else 'unexplained:marking:%s' % signature(t)
         return Failure(key, 'marking: in `(p for p in P for q in Q if %s)` the subexpression `%s` is marked external (evaluated in the caller\'s scope) although it '
-                       'mentions the query variable %s' % (text, res['src'], ', '.join(res['names'])), {'marking_tree': t})
+                       'mentions %s, bound inside the query (query variable / lambda parameter)' % (text, res['src'], ', '.join(res['names'])), {'marking_tree': t})
     if res['kind'] == 'external-is-not-an-expression':
         key = 'non-expression-item-extracted-as-parameter' if res['node'] in ('Starred', 'Slice') else 'unexplained:marking-item:%s' % res['node']
         return Failure(key, 'marking: in `(p for p in P for q in Q if %s)` the %s `%s` is left in the set of externals; it is not an expression, '
@@ -792,19 +808,23 @@ def replay(ctx, data):
     return failures_for(t, res, route)[0]
 
 
-LEVEL_TEXT = ('Machine-checked proof (Coq 8.16.1), structural induction over expression trees of unbounded depth: for EVERY parenthesisation style that parenthesises at '
-              'least where Python\'s grammar levels require (ref_needs, derived from the level tables prec/req) and never parenthesises an item, a model of Python\'s '
-              'expression grammar (precedence-climbing parser over tokens, driven by the same tables) reads the printed tokens back as exactly the tree (C04_print_parse, '
-              'C04_print_parse_unique); instantiated to the style of PythonTranslator, whose @priority table, `>=` rule, receiver_src helper and f-string / index-tuple layouts '
-              'are re-scanned from /repo on every run: EVERY well-formed tree is read back as itself (C04_ast2src, no exception list since the repairs 2e38fbd / 18f54e0); the '
-              'finite table theorem C04_table (vm_compute over the kind enumeration) has no exceptions either. f-string bodies at character level: parse_f (print_f v) = v with '
-              'literal braces, conversions and specs, for the faithful printer and for the code\'s own flags (C04_fstring, C04_fstring_ast2src). '
-              'The printer model equals the real ast2src text on every generated tree; the grammar model and ref_needs are validated against CPython ast.parse on every run; '
-              'search: eval(compile(tree)) vs eval(compile(ast2src(tree))) over recording values, and external expressions of real queries on SQLite (bound parameter value).')
+LEVEL_TEXT = ('Machine-checked proof (Coq 8.16.1). (A) ast2src: structural induction over expression trees of unbounded depth: for EVERY parenthesisation style that parenthesises at '
+              'least where Python\'s grammar levels require and never parenthesises an item, a model of Python\'s expression grammar (precedence-climbing parser over tokens) reads the '
+              'printed tokens back as exactly the tree (C04_print_parse, _unique); instantiated to PythonTranslator, whose @priority table, `>=` rule, receiver_src helper and f-string / '
+              'index-tuple layouts are re-scanned from /repo on every run: EVERY well-formed tree is read back as itself (C04_ast2src, C04_table without exceptions); f-string bodies at '
+              'character level (C04_fstring, C04_fstring_ast2src). (B) which parts are evaluated in the caller\'s scope: a model of PreTranslator\'s external / constant marking '
+              '(contexts of for-clause and lambda names, call special cases through a callee oracle, the final pass over non-externalizable kinds) and of the extractor keys; theorems: '
+              'soundness of the marking (an external mentions no query variable or enclosing lambda parameter and contains no lambda) on trees without the known list/starred defect '
+              '(refuted witness otherwise), maximality as far as the code intends it, distinct keys per filter number, same text => same tree, and the first sentence of the property on an '
+              'integer evaluation semantics: Python\'s eval of the text ast2src prints for an external, in the caller\'s scope, is the value of that subexpression in place under any binding '
+              'of the query variables (C04_bound_value_except_known). Ties on every run: printer text = real ast2src; grammar model and ref_needs vs CPython ast.parse; the model\'s external '
+              'set and extractor texts = the real PreTranslator / create_extractors node for node on generated query bodies; real extract_vars keys and values over generated scopes. '
+              'Search: eval(compile(tree)) vs eval(compile(ast2src(tree))) over recording values; the marking property on the real PreTranslator; external expressions of real queries on SQLite.')
 LEVEL_NOTE = ('Trusted: Coq kernel + vm_compute; the source scanner; the hand-written grammar model (levels + parser), validated against CPython but not derived from it; '
               'tokens as the unit (lexing outside the model: integer-literal receivers, quote nesting in f-strings); wf excludes folded negative constants (their reparse is a '
               'UnaryOp node; covered by the table theorem, the text tie and the search); the theorem is about AST identity of the reparse, which implies equal meaning; '
-              'PreTranslator external marking and extract_vars evaluation in the caller frame are covered by the end-to-end correspondence only (no Coq model). '
+              'the PreTranslator model is hand-written (tied node for node, not translated from source); the callee classification of postCall (eval of the dotted name) is an oracle '
+              'argument; nested generator expressions (subqueries) and dict/set displays are outside the marking model; the value theorem is stated for the integer fragment of Model/C04Eval.v; '
               'C04_print_parse has existential fuel, C04_print_parse_unique shows no fuel gives another answer.')
 TECHNIQUE = ('Coq proof by structural induction on rose trees (round trip printer -> precedence-climbing parser, generic in the parenthesisation table); finite table theorems by '
              'vm_compute + forallb_forall; table regenerated from source (py2coq scanner); vm_compute text correspondence with ast2src; CPython validation of the reference grammar; '
